@@ -386,6 +386,31 @@ def check_propagate(ctx):
         R.follow(ctx, inst, body, pwb, [x for x in ext], "the retries returned by process_write_batch are appended to shard_retries", b_desc="shard_retries.extend")
 
 
+def check_completion(ctx):
+    """an io_uring write completion counts as success only if it is non-negative AND reports exactly the requested length:
+    a short write is an error (the caller poisons / retries), never silently accepted"""
+    from rules.common import pin_comparisons
+    inst = "C09.completion"
+    b = ctx.fn("io::validate_write_completion", inst)
+    if b is None:
+        return
+    pin_comparisons(ctx, inst, b, [
+        ("Lt", lambda e: e.k == "arg" and e.extra[0] == 1, lambda e: e.k == "const" and (e.extra or {}).get("val") == 0, "a negative completion is an error (`result < 0`)"),
+        ("Eq", lambda e: e.k == "arg" and e.extra[0] == 2, lambda e: e.k == "cast" and e.a[0].k == "arg" and e.a[0].extra[0] == 1, "a completion that is not exactly the requested length is an error (`result as usize != expected`)"),
+    ])
+    oks = A.ok_nodes(b)
+    def lt0(e):
+        return e.k == "bin" and e.extra == "Lt" and e.a[0].k == "arg" and e.a[0].extra[0] == 1
+    def eqlen(e):
+        return e.k == "bin" and e.extra == "Eq" and e.has_arg(idx=2) and e.has_arg(idx=1)
+    R.guard(ctx, inst, b, oks, A.pred_edges(b, lt0, "false"), "Ok only for a non-negative result")
+    R.guard(ctx, inst, b, oks, A.pred_edges(b, eqlen, "true"), "Ok only for a full-length write")
+    sites = ctx.prog.call_sites("io::validate_write_completion")
+    ctx.check(len(sites) >= 1, inst, "anchor", "-", "completion results are validated (call sites >= 1, found %d)" % len(sites), None)
+    for bb, n in sites:
+        ctx.check(R.result_is_used(bb, n.id), inst, "NODISCARD", bb.path, "the verdict of validate_write_completion is not dropped", bb.where(n.id))
+
+
 def check_metadata_commit(ctx):
     """two metadata slots: generation g + 1 always goes to the slot that does not hold the last durable generation g. That
     needs the in-memory generation to advance only once the new copy is written and flushed; a failed attempt must leave
@@ -436,6 +461,7 @@ def check_scrub(ctx):
 
 
 def check(ctx):
+    check_completion(ctx)
     check_metadata_commit(ctx)
     check_scrub(ctx)
     check_nodiscard(ctx)
